@@ -66,8 +66,8 @@ PseudoVerdict(e) ==
        ELSE TagClause(rs, e)
 
 (* via "crd": Molecule.get_consensus_read() with its defaults - not an entry the property names: observation only.
-   via "cli_halfmapped": a command-line run whose BAM also holds a half-mapped pair: observation only (see docs/C15.md) *)
-ObservedOnly(e) == e.ev = "pseudo" /\ e.via \in {"crd", "cli_halfmapped"}
+   via "cli_halfmapped": a command-line run whose BAM certainly holds a half-mapped pair - judged like every other run *)
+ObservedOnly(e) == e.ev = "pseudo" /\ e.via \in {"crd"}
 Verdict(e) == IF ObservedOnly(e) THEN "ok"
               ELSE IF e.ev = "pseudo" THEN PseudoVerdict(e)
               ELSE IF e.ev = "orphan" THEN "Inv_C15_Blocks_record_outside_every_molecule"
@@ -77,7 +77,6 @@ Verdict(e) == IF ObservedOnly(e) THEN "ok"
    as the design model cuts them (not part of the statement) *)
 Notes(line, e) ==
     IF e.ev = "pseudo" /\ e.via = "crd" THEN Note(line, e.tid, "default_get_consensus_read_" \o PseudoVerdict(e))
-    ELSE IF e.ev = "pseudo" /\ e.via = "cli_halfmapped" THEN Note(line, e.tid, "cli_bam_with_half_mapped_pair_" \o PseudoVerdict(e))
     ELSE IF e.ev # "pseudo" \/ Has(e, "raised") THEN TRUE
     ELSE LET cf == ConfOf(e.reads)
              rs == [ i \in DOMAIN e.records |-> RecOf(e.records[i]) ]
